@@ -57,6 +57,10 @@ func (x *Exec) smtText(o *Obligation, getValues []*Term) string {
 			fmt.Fprintf(&sb, "(declare-const %s %s)\n", name, s)
 		}
 	}
+	if ops["str_lt"] {
+		sb.WriteString("(assert (forall ((a Str) (b Str)) (not (and (str_lt a b) (str_lt b a)))))\n")
+		sb.WriteString("(assert (forall ((a Str) (b Str)) (or (str_lt a b) (= a b) (str_lt b a))))\n")
+	}
 	strs := PrintTerms(&sb, roots)
 	n := len(roots) - len(getValues)
 	for i := 0; i < n; i++ {
